@@ -69,15 +69,30 @@ func stress(c *kit.Ctx) {
 		}
 		// history of active endpoints per function: (from-seq, addr); seq is a global atomic clock
 		var clock atomic.Int64
+		// A span is the interval in which addr may legitimately be read as the active endpoint: it
+		// opens BEFORE the write that makes it active is issued and closes AFTER the write that
+		// replaces it has returned, so consecutive spans overlap for the duration of that write.
 		type span struct {
-			from int64
-			addr string // "" = uninstalled
+			from, to int64
+			addr     string
 		}
+		const open = int64(1) << 62
 		var hmu sync.Mutex
 		hist := make([][]span, nFn)
 		setActive := func(f int, addr string) {
 			hmu.Lock()
-			hist[f] = append(hist[f], span{clock.Add(1), addr})
+			hist[f] = append(hist[f], span{from: clock.Add(1), to: open, addr: addr})
+			hmu.Unlock()
+		}
+		// closePrevious ends every span of f but the newest one (called after the write returned)
+		closePrevious := func(f int) {
+			hmu.Lock()
+			t := clock.Add(1)
+			for k := 0; k+1 < len(hist[f]); k++ {
+				if hist[f][k].to == open {
+					hist[f][k].to = t
+				}
+			}
 			hmu.Unlock()
 		}
 		for f := 0; f < nFn; f++ {
@@ -116,12 +131,8 @@ func stress(c *kit.Ctx) {
 					hmu.Lock()
 					ok := false
 					hs := hist[f]
-					for k, sp := range hs {
-						end := int64(1) << 62
-						if k+1 < len(hs) {
-							end = hs[k+1].from
-						}
-						if sp.addr == by && sp.from <= t1 && end >= t0 {
+					for _, sp := range hs {
+						if sp.addr == by && sp.from <= t1 && sp.to >= t0 {
 							ok = true
 						}
 					}
@@ -158,6 +169,7 @@ func stress(c *kit.Ctx) {
 						// the new endpoint becomes "active" from the moment the write can be seen
 						setActive(f, srv[f][cur[f]].Addr)
 						_ = adm.Status().Update(ctx, u)
+						closePrevious(f)
 						flips.Add(1)
 					}
 				case 2: // uninstall and re-install the function
